@@ -31,14 +31,17 @@ structure State where
 
 inductive Op where
   | mkfile (p : Path) (c : String)      -- create an (unversioned) file on disk
+  | mklink (p : Path) (t : String)      -- create an (unversioned) symbolic link on disk
   | write (p : Path) (c : String)       -- overwrite a file on disk
   | chmod (p : Path) (x : Bool)
   | mkdir (p : Path)                    -- WorkingTree.mkdir
   | add (p : Path)                      -- WorkingTree.add([p])
   | remove (p : Path) (force : Bool)    -- remove([p], keep_files=not force, force=force)
+  | unversion (p : Path)                -- WorkingTree.unversion([p]): like remove(keep_files), but raises for a path that is not versioned
   | rename (a b : Path)                 -- rename_one(a, b); move([a], d) = rename a (d ++ [last a])
   | commit
-  | revert
+  | revert (backups : Bool)            -- WorkingTree.revert(backups=…)
+  | revertPath (p : Path) (backups : Bool)   -- WorkingTree.revert([p], backups=…), `p` a file or link of both trees
   | reopen
   deriving DecidableEq, Repr
 
@@ -121,31 +124,151 @@ def setNode (t : Tree) (i : Id) (n : Node) : Tree :=
 def setPos (t : Tree) (i : Id) (parent : Id) (name : String) : Tree :=
   t.map fun x => if x.1 = i then (x.1, { x.2 with parent := some parent, name := name }) else x
 
-/-- `revert(backups=False)`: entries that are not in the basis become
-unversioned and stay where they are (relative to their parent id); every basis
-entry is restored; an unversioned object that is in the way gets `.moved` -/
+/-! ### revert -/
+
 def dropEmpty (cand : List Id) (t : Tree) : Tree :=
   t.filter fun x => !(cand.contains x.1 && (childrenOf t x.1).isEmpty)
 
-def revert (fl : Flavour) (s : State) : State :=
-  -- bzr: directories that were added (versioned, not in the basis) and are empty are deleted
-  let added := s.ver.filter fun i => (get s.basis i).isNone && isDir s.disk i && i != rootId
-  let disk0 := match fl with
-    | .bzr => iterate (dropEmpty added) s.disk.length s.disk
-    | .git => s.disk
-  let restored : Tree := s.basis.foldr (fun x d => C10.set d x.1 x.2) disk0
+/-- the names used inside directory `d` -/
+def namesIn (t : Tree) (d : Option Id) : List String :=
+  (t.filter fun x => x.2.parent == d).map (·.2.name)
+
+def backupCand (name : String) (k : Nat) : String := name ++ ".~" ++ toString (k + 1) ++ "~"
+
+/-- `osutils.available_backup_name`: `name.~N~` for the smallest `N ≥ 1` that is
+free in the directory -/
+def backupName (t : Tree) (d : Option Id) (name : String) : String :=
+  match (List.range (t.length + 1)).find? (fun k => !(namesIn t d).contains (backupCand name k)) with
+  | some k => backupCand name k
+  | none => backupCand name (t.length + 1)
+
+def substVer (ren : List (Id × Id)) (v : List Id) : List Id := unionNew [] (v.map (substId ren))
+
+/-- git has no file ids: a versioned object that sits at a path of the basis
+*is* that basis entry, whatever happened before (removed and re-added, names
+swapped …).  `(j, i)`: the versioned object `j` sits at the basis path of `i ≠ j`
+and both are of the same kind (a change of kind is a deletion plus an addition). -/
+def samePathPairs (s : State) : List (Id × Id) :=
+  (unionNew [] (ids s.disk)).filterMap fun j =>
+    match get s.disk j, pathOf s.disk j with
+    | some e, some p =>
+      match idAt s.basis p with
+      | some i =>
+        match get s.basis i with
+        | some b =>
+          -- (a directory counts whether versioned or not: git does not track directories)
+          if i != j && !p.isEmpty && e.node.kind == b.node.kind && (isVer s j || e.node.kind == .dir) then some (j, i)
+          else none
+        | none => none
+      | none => none
+    | _, _ => none
+
+/-- git: give every versioned object (and every directory) at a basis path the identity of that basis
+entry; an object that carried that identity elsewhere gets a fresh one -/
+def reidentify (s : State) : State :=
+  let pairs := samePathPairs s
+  let olds := (unionNew [] (pairs.map (·.2))).filter fun i =>
+    (get s.disk i).isSome && !(pairs.map (·.1)).contains i
+  let ren := pairs ++ freshFor s.ctr olds
+  { s with disk := renameIds ren s.disk, ver := substVer ren s.ver, ctr := s.ctr + olds.length }
+
+/-- the objects revert sets aside instead of overwriting / moving back; the flag
+says whether the object gets a backup name.
+* a versioned *file* whose text differs from the basis text of its id, when
+  `backups` is on: renamed to `name.~N~` next to where it is now;
+* git only: an object of the basis that sits at another path and is not an exact
+  copy of its basis content (no rename is detected: in path space it is an added
+  object), and every directory of the basis that sits at another path (git does
+  not track directories): they stay where they are, unversioned. -/
+def asideOf (fl : Flavour) (backups : Bool) (s : State) : List (Id × Bool) :=
+  (unionNew [] (ids s.basis)).filterMap fun i =>
+    match get s.disk i, get s.basis i with
+    | some d, some b =>
+      if d.parent.isNone then none
+      else if fl == .git && pathOf s.disk i != pathOf s.basis i then
+        -- (a directory keeps its id when git stops versioning it: no versioned file below it)
+        (if d.node.kind == .dir || (isVer s i && contentChanged b.node d.node) then some (i, false) else none)
+      else if isVer s i && backups && d.node.kind == .file && contentChanged b.node d.node then some (i, true)
+      else none
+    | _, _ => none
+
+/-- `revert(backups=…)`: entries that are not in the basis become unversioned and
+stay where they are (relative to their parent id); every basis entry is
+restored; an unversioned object that is in the way gets `.moved`; symbolic links
+that were versioned and are not part of the basis are deleted, and so are
+directories of that kind that end up empty -/
+def revert (fl : Flavour) (backups : Bool) (s : State) : State :=
+  let s1 := match fl with
+    | .bzr => s
+    | .git => reidentify s
+  let aside := asideOf fl backups s1
+  let ren := freshFor s1.ctr (aside.map (·.1))
+  let named := (aside.filter (·.2)).map fun x => substId ren x.1
+  let ver1 := substVer ren s1.ver
+  let disk0 : Tree := (renameIds ren s1.disk).map fun x =>
+    if named.contains x.1 then (x.1, { x.2 with name := backupName s1.disk x.2.parent x.2.name }) else x
+  -- symbolic links that were added (versioned, not in the basis) are deleted (only files are kept)
+  let disk1 : Tree := disk0.filter fun x =>
+    !(ver1.contains x.1 && (get s.basis x.1).isNone && x.2.node.kind == .symlink)
+  -- directories that were added (versioned, not in the basis): deleted when they end up empty
+  let added := ver1.filter fun i => (get s.basis i).isNone && isDir disk1 i && i != rootId
+  let restored : Tree := s.basis.foldr (fun x d => C10.set d x.1 x.2) disk1
   let moved : Tree := restored.map fun x =>
     if (get s.basis x.1).isNone &&
         s.basis.any (fun b => b.2.parent == x.2.parent && b.2.name == x.2.name) then
       (x.1, { x.2 with name := x.2.name ++ ".moved" })
     else x
-  { s with disk := moved, ver := unionNew (ids s.basis) [rootId] }
+  let final := iterate (dropEmpty added) moved.length moved
+  { s with disk := final, ver := unionNew (ids s.basis) [rootId], ctr := s1.ctr + aside.length }
+
+/-- `revert([p], backups=…)` for a file or symbolic link that both the working tree
+and the basis have at path `p` (bzr: the same entry, in the same directory; git: any
+versioned object of that kind at that path — identity is the path): only that entry is
+restored (content, target, executable bit); an edited file is set aside under a
+backup name first when `backups` is on.  `none`: outside this envelope. -/
+def revertPath (fl : Flavour) (s : State) (p : Path) (backups : Bool) : Option State :=
+  match idAt s.basis p, idAt s.disk p with
+  | some i, some j =>
+    match get s.basis i, get s.disk j with
+    | some be, some de =>
+      if isVer s j && (fl == .git || i == j) && !p.isEmpty && be.node.kind == de.node.kind
+          && de.node.kind != .dir && (fl == .git || be.parent == de.parent) then
+        -- git: the object at `p` takes the identity of the basis entry; another holder of it gets a fresh one
+        let ren1 := if i == j then [] else (j, i) :: (if (get s.disk i).isSome then [(i, fresh s.ctr)] else [])
+        let s1 : State := { s with disk := renameIds ren1 s.disk, ver := substVer ren1 s.ver, ctr := s.ctr + 1 }
+        if backups && de.node.kind == .file && contentChanged be.node de.node then
+          let bak := backupName s1.disk de.parent de.name
+          let disk2 : Tree := (renameIds [(i, fresh s1.ctr)] s1.disk).map fun x =>
+            if x.1 == fresh s1.ctr then (x.1, { x.2 with name := bak }) else x
+          some { s1 with disk := disk2 ++ [(i, ⟨de.parent, de.name, be.node⟩)], ctr := s1.ctr + 1 }
+        else some { s1 with disk := setNode s1.disk i be.node }
+      else none
+    | _, _ => none
+  | _, _ => none
+
+/-- stop versioning `i` and everything below it; `force`: also delete it from disk,
+otherwise the objects stay on disk, detached from their old identity -/
+def removeId (fl : Flavour) (s : State) (i : Id) (force : Bool) : State :=
+  let sub := subtree s.disk i
+  if force then
+    finish fl { s with disk := s.disk.filter (fun x => !sub.contains x.1),
+                       ver := s.ver.filter (fun j => !sub.contains j) }
+  else
+    let gone := sub.filter (isVer s)
+    let ren := freshFor s.ctr gone
+    finish fl { s with disk := renameIds ren s.disk,
+                       ver := s.ver.filter (fun j => !sub.contains j),
+                       ctr := s.ctr + gone.length }
 
 /-- the state after a successful operation; `none` = the operation raises -/
 def stepOk (fl : Flavour) (s : State) (op : Op) : Option State :=
   match op with
   | .mkfile p c =>
     match place s p (.file c false) false false with
+    | some s' => some s'
+    | none => none
+  | .mklink p t =>
+    match place s p (.symlink t) false false with
     | some s' => some s'
     | none => none
   | .write p c =>
@@ -182,19 +305,18 @@ def stepOk (fl : Flavour) (s : State) (op : Op) : Option State :=
     match idAt s.disk p with
     | none => some s            -- `remove` of an unknown path is silently ignored
     | some i =>
-      if !isVer s i || (get s.disk i).bind (·.parent) == none then some s
-      else
-        let sub := subtree s.disk i
-        if force then
-          some (finish fl { s with disk := s.disk.filter (fun x => !sub.contains x.1),
-                                   ver := s.ver.filter (fun j => !sub.contains j) })
-        else
-          -- the objects stay on disk, detached from their old identity
-          let gone := sub.filter (isVer s)
-          let ren := freshFor s.ctr gone
-          some (finish fl { s with disk := renameIds ren s.disk,
-                                   ver := s.ver.filter (fun j => !sub.contains j),
-                                   ctr := s.ctr + gone.length })
+      if (get s.disk i).bind (·.parent) == none then some s
+      else if !isVer s i then
+        -- not versioned: nothing to unversion, but `force` still deletes what is on disk
+        if force then some { s with disk := s.disk.filter (fun x => !(subtree s.disk i).contains x.1) } else some s
+      else some (removeId fl s i force)
+  | .unversion p =>
+    match idAt s.disk p with
+    | none => none
+    | some i =>
+      -- not versioned: NoSuchFile; the root: "not currently supported" (bzr) / nothing to delete (git)
+      if !isVer s i || (get s.disk i).bind (·.parent) == none then none
+      else some (removeId fl s i false)
   | .rename a b =>
     -- (git's "perhaps it's already moved?" mode needs a versioned source that is gone from
     -- disk: outside the modelled envelope, so a missing source is an error in both flavours)
@@ -212,7 +334,11 @@ def stepOk (fl : Flavour) (s : State) (op : Op) : Option State :=
   | .commit =>
     let s' := finish fl s
     some { s' with basis := wtTree s' }
-  | .revert => some (finish fl (revert fl s))
+  | .revert backups => some (finish fl (revert fl backups s))
+  | .revertPath p backups =>
+    match revertPath fl s p backups with
+    | some s' => some (finish fl s')
+    | none => none
   | .reopen => some s
 
 /-- a failing operation raises and leaves the state alone -/
@@ -256,5 +382,12 @@ basis are well-formed, versioned ids exist and are closed under parents -/
 def okState (s : State) : Bool :=
   wf s.disk && (s.basis.isEmpty || wf s.basis) && wf (wtTree s) &&
   s.ver.all fun i => (get s.disk i).isSome
+
+/-- every directory of the basis other than the root has a file or symbolic link
+of the basis somewhere below it — what git can represent at all (a commit made
+by the git flavour of `step` prunes all other directories) -/
+def gitClosed (b : Tree) : Bool :=
+  b.all fun x => x.2.node.kind != .dir || x.2.parent.isNone ||
+    (below b b.length x.1).any fun j => !isDir b j
 
 end BreezyVerif.C09
